@@ -1,66 +1,104 @@
 #!/usr/bin/env python3
-"""Copies confirmed seeded changes from /tmp/seed-*/SEEDn (+ results of tools/try_seed.py in /tmp/seedresults) into
-/verif/seeded/<prop>-<n>/ and writes /verif/seeded/SUMMARY.md."""
+"""Copies confirmed seeded changes (+ results of tools/try_seed.py in /tmp/seedresults) into /verif/seeded/<id>/ and
+writes /verif/seeded/SUMMARY.md. Result files: <prefix>[.<rerun tag>].json with prefix
+  Cnn-SEEDn (round 1, /tmp/seed-Cnn/SEEDn), R2-Cnn-SEEDn (round 2, /tmp/seed2-Cnn/SEEDn -> Cnn-R2SEEDn),
+  S3-Cnn-SEEDn (round 3, /tmp/s3-Cnn/SEEDn -> Cnn-R3SEEDn).
+All result files of one seed are merged in time order: the first confirms (build, demo with/without), every one
+contributes the per-property check result (the latest run of a property wins; the history is kept)."""
 import glob
 import json
 import os
+import re
 import shutil
 
 OUT = "/verif/seeded"
-rows = []
-for res in sorted(glob.glob("/tmp/seedresults/C*-SEED*.json") + glob.glob("/tmp/seedresults/R2-C*-SEED*.json")):
-    name = os.path.basename(res)[:-5]
-    if ".r" in name:
-        continue  # reruns are merged by hand (latest result copied over the base name)
-    if name.startswith("R2-"):
-        _, prop, n = name.split("-")
-        src = "/tmp/seed2-%s/%s" % (prop, n)
-        name = "%s-R2%s" % (prop, n)
+groups = {}
+for res in glob.glob("/tmp/seedresults/*.json"):
+    b = os.path.basename(res)[:-5]
+    m = re.match(r"^(R2-|S3-)?(C\d\d)-(SEED\d+)(\..*)?$", b)
+    if not m:
+        continue
+    rnd, prop, n, _ = m.groups()
+    if rnd == "R2-":
+        name, src = "%s-R2%s" % (prop, n), "/tmp/seed2-%s/%s" % (prop, n)
+    elif rnd == "S3-":
+        name, src = "%s-R3%s" % (prop, n), "/tmp/s3-%s/%s" % (prop, n)
     else:
-        prop, n = name.split("-")
-        src = "/tmp/seed-%s/%s" % (prop, n)
-    try:
-        r = json.load(open(res))
-    except Exception:
+        name, src = "%s-%s" % (prop, n), "/tmp/seed-%s/%s" % (prop, n)
+    groups.setdefault(name, dict(prop=prop, src=src, files=[]))["files"].append(res)
+
+notconf = []
+for name, g in sorted(groups.items()):
+    files = sorted(g["files"], key=os.path.getmtime)
+    results = []
+    for f in files:
+        try:
+            results.append(json.load(open(f)))
+        except Exception:
+            pass
+    conf = [r for r in results if r.get("demo_with_patch")]
+    if not conf:
         continue
-    if not os.path.exists(os.path.join(src, "patch.diff")):
-        continue
-    confirmed = r.get("builds") and r.get("demo_with_patch") == "FAIL" and r.get("demo_without_patch") == "ok"
+    r0 = ([r for r in conf if "suite_fail_lines" in r] or conf)[0]
+    confirmed = r0.get("builds") and r0.get("demo_with_patch") == "FAIL" and r0.get("demo_without_patch") == "ok"
     if not confirmed:
-        rows.append((name, "NOT CONFIRMED (demo with patch: %s, without: %s)" % (r.get("demo_with_patch"), r.get("demo_without_patch")), "", ""))
+        notconf.append((name, "NOT CONFIRMED (demo with patch: %s, without: %s)" % (r0.get("demo_with_patch"), r0.get("demo_without_patch")), "", ""))
         continue
     d = os.path.join(OUT, name)
+    src = g["src"]
+    have_src = os.path.exists(os.path.join(src, "patch.diff"))
+    if not have_src and not os.path.exists(os.path.join(d, "patch.diff")):
+        continue
     os.makedirs(d, exist_ok=True)
-    shutil.copyfile(os.path.join(src, "patch.diff"), os.path.join(d, "patch.diff"))
-    shutil.copyfile(os.path.join(src, "demo_test.go"), os.path.join(d, "demo_test.go.txt"))
     meta = {}
-    if os.path.exists(os.path.join(src, "meta.json")):
-        try:
-            meta = json.load(open(os.path.join(src, "meta.json")))
-        except Exception:
-            meta = {"raw": open(os.path.join(src, "meta.json")).read()}
-    old = {}
-    if os.path.exists(os.path.join(d, "meta.json")):
-        old = json.load(open(os.path.join(d, "meta.json")))
-    hist = old.get("check_history", [])
-    entry = {p: ("caught" + (" (no-failing-input-found)" if any("no-failing-input-found" in l for l in c["lines"]) else "")) if any(l.startswith("VIOLATION") for l in c["lines"]) else "missed" for p, c in r.get("checks", {}).items()}
-    if not hist or hist[-1] != entry:
-        hist.append(entry)
-    meta_out = dict(seed=name, breaks=meta.get("property", prop), summary=meta.get("summary"), needs=meta.get("needs"), violates=meta.get("violates"),
-                    author_ran=meta.get("ran"),
-                    confirmed_by_lead=dict(tool="tools/try_seed.py (scratch worktree of /repo HEAD)", patch_applies=r.get("apply"), builds_with_and_without_tag=r.get("builds"),
-                                           demo_with_patch=r.get("demo_with_patch"), demo_without_patch=r.get("demo_without_patch"),
-                                           existing_suite_fail_lines_with_patch=r.get("suite_fail_lines", "not re-run (author ran it)"),
-                                           note="suite failures listed here are load-dependent flaky tests (quota preemption / placeholder timeout / pkg/scheduler/tests) that also fail intermittently on the unchanged tree"),
-                    check_history=hist, checks_now=entry)
+    if have_src:
+        shutil.copyfile(os.path.join(src, "patch.diff"), os.path.join(d, "patch.diff"))
+        shutil.copyfile(os.path.join(src, "demo_test.go"), os.path.join(d, "demo_test.go.txt"))
+        if os.path.exists(os.path.join(src, "meta.json")):
+            try:
+                meta = json.load(open(os.path.join(src, "meta.json")))
+            except Exception:
+                meta = {"raw": open(os.path.join(src, "meta.json")).read()}
+    old = json.load(open(os.path.join(d, "meta.json"))) if os.path.exists(os.path.join(d, "meta.json")) else {}
+    hist = []
+    now = {}
+    for r in results:
+        entry = {}
+        for p, c in r.get("checks", {}).items():
+            lines = c.get("lines", [])
+            if any("broken-7847f81657" in l for l in lines):
+                continue  # the shared harness did not build at that moment (another builder's file): not a result
+            if any(l.startswith("VIOLATION") for l in lines):
+                entry[p] = "caught" + (" (no-failing-input-found)" if all("no-failing-input-found" in l for l in lines if l.startswith("VIOLATION")) else "")
+            else:
+                entry[p] = "missed"
+        if entry:
+            hist.append(entry)
+            now.update(entry)
+    if not have_src:
+        # round 1 seed stored earlier: keep its description, refresh the results
+        old_hist = old.get("check_history", [])
+        hist = old_hist if len(old_hist) >= len(hist) else hist
+        now = old.get("checks_now", now) if hist is old_hist else now
+        meta_out = dict(old, check_history=hist, checks_now=now)
+    else:
+        meta_out = dict(seed=name, breaks=meta.get("breaks", meta.get("property", g["prop"])), summary=meta.get("summary"), needs=meta.get("needs"), violates=meta.get("violates"),
+                        author_ran=meta.get("author_ran", meta.get("ran")), origin=meta.get("origin"),
+                        confirmed_by_lead=dict(tool="tools/try_seed.py (scratch worktree of /repo HEAD)", patch_applies=r0.get("apply"), builds_with_and_without_tag=r0.get("builds"),
+                                               demo_with_patch=r0.get("demo_with_patch"), demo_without_patch=r0.get("demo_without_patch"),
+                                               existing_suite_fail_lines_with_patch=r0.get("suite_fail_lines", "not re-run (author ran it)"),
+                                               note="suite failures listed here are load-dependent flaky tests (quota preemption / placeholder timeout / pkg/scheduler/tests / events) that also fail intermittently on the unchanged tree"),
+                        check_history=hist, checks_now=now)
     json.dump(meta_out, open(os.path.join(d, "meta.json"), "w"), indent=1)
-rows = [r for r in rows if r[1].startswith("NOT CONFIRMED")]
+
+rows = list(notconf)
 for mf in sorted(glob.glob(os.path.join(OUT, "*", "meta.json"))):
     m = json.load(open(mf))
     rows.append((m["seed"], m.get("summary") or "", m.get("needs") or "", ", ".join("%s: %s" % kv for kv in (m.get("checks_now") or {}).items())))
 with open(os.path.join(OUT, "SUMMARY.md"), "w") as f:
     f.write("# Seeded breaking changes (confirmed) and which check catches which\n\n")
-    f.write("Each directory holds `patch.diff` (apply with `git -C /repo apply`), `demo_test.go.txt` (the author's demonstration; first line says where to place it) and `meta.json`.\n")
+    f.write("Each directory holds `patch.diff` (apply with `git -C /repo apply`), `demo_test.go.txt` (the author's demonstration; first line says where to place it) and `meta.json` (incl. the history of check results: a seed first missed and caught after a strengthening shows both).\n")
+    f.write("Ids: Cnn-SEEDn = round 1, Cnn-R2SEEDn = round 2, Cnn-R3SEEDn = round 3 (independent authors given only the property text).\n")
     f.write("Re-run: `python3 tools/try_seed.py <dir with patch.diff and demo_test.go> <Cnn> [--also Cmm]`.\n\n| seed | change | needs | checks (latest run) |\n|---|---|---|---|\n")
     for name, summ, needs, chk in rows:
         f.write("| %s | %s | %s | %s |\n" % (name, str(summ).replace("|", "/").replace("\n", " ")[:260], str(needs).replace("|", "/").replace("\n", " ")[:200], chk))
